@@ -1,4 +1,8 @@
 """C20 — subscriber-identifying keys (QinQ pairs, PPPoE session ids, circuit-id keys) map to at most one subscriber."""
+import os
+import re
+import subprocess
+
 import verif as V
 
 PROP = "C20"
@@ -6,31 +10,98 @@ SPEC = ["Bng.Spec.C20", "Bng.Spec.C20Index"]
 MON = ["dup-key", "id-unique", "range", "fwd-rev", "release-frame"]
 # all five components are hosted by ONE harness binary (harness/cmd/c20, one link instead of five); the component is
 # selected through the environment.  harness/cmd/<component> hosts each one alone (same code, bngverif/c20/<component>).
-COMPS = [V.Component(n, harness="c20", monitors=MON, exec_env={"C20_COMP": n})
+# The drivers are hosted by their own executable bngdrv-c20 (lean/MainC20.lean; the same components are also registered
+# in the common bngdrv): another property's driver that does not build must not leave C20 running on a stale binary.
+COMPS = [V.Component(n, harness="c20", monitors=MON, exec_env={"C20_COMP": n}, drv_bin="bngdrv-c20")
          for n in ("vlan", "qinq", "pppsess", "circuitkey", "index")]
 LEVEL = ("Bijection (forward and reverse maps mutually inverse), in-range, release-frame and id-uniqueness are theorems "
          "over the Lean models of nexus.VLANAllocator, qinq.Mapper and pppoe.SessionManager for ALL operation histories "
          "(invariant + induction over the operation list); injectivity of the 32-byte circuit-id key on its safe domain, "
          "its failure outside, and the non-injectivity of any 64-bit hash on strings of <= 64 bytes (pigeonhole) are "
          "theorems over all byte strings. One generic primary-map-plus-secondary-indexes model, instantiated with the exact "
-         "update/delete behaviour of subscriber.Manager, state.Store (leases, sessions, subscribers) and "
+         "update/delete/load behaviour of subscriber.Manager, state.Store (leases, sessions, subscribers, NAT bindings) and "
          "allocator.MemoryAllocationStore, carries the unconditional index theorems that hold for the code as it is, the "
          "bijection/release-frame theorems under the negated finding clauses (D59, KF-index-rekey) and the findings' "
          "witnesses. The models are tied to the real Go code by differential execution of generated "
          "operation sequences, and the abstract key-table monitor judges the real code's answers.")
 ASSUME = [
-    "each mutex-protected method is one atomic step; data races inside a critical section are not modelled",
-    "vlan: the in-range and release-frame theorems assume GoodCfg: Start <= End and both ranges end below 65535 (VLAN ids are 12 bit); with End = 65535 the uint16 loop counters wrap — modelled exactly (w16, one-cycle fuel) and recorded as finding KF-vlan-u16-wrap; the bijection theorems need no assumption",
-    "vlan: in-range theorem assumes stored pairs handed to LoadFromStore are in range (complement = finding KF-vlan-load-range)",
-    "pppsess: the converse index direction (every live session reachable by MAC) assumes one live session per MAC (complement = finding KF-pppsess-mac-orphan); the id search is fuel-bounded in the model, its termination behind the 65535 guard belongs to C09",
+    "each mutex-protected method is one atomic step; data races inside a critical section are not modelled, they are looked for dynamically: a second harness build with `go build -race` runs one stress sequence kind per component (8 goroutines x 200 operations on one shared object, then a full audit of both lookup directions judged by the same monitor); the race detector only sees the schedules that happened",
+    "vlan: the in-range, exhaustion and release-frame theorems assume GoodCfg = both ranges end below 65535 (VLAN ids are 12 bit); its complement is exactly finding KF-vlan-u16-wrap (the uint16 wrap is modelled: w16, one-cycle fuel); empty ranges are covered; the bijection theorems need no assumption",
+    "vlan: vlan_in_ranges_partial exempts exactly the (NTE, pair) records that a load of the history named with an out-of-range pair (finding KF-vlan-load-range) and holds for every other NTE of the same history",
+    "pppsess: the converse index direction is stated per MAC and exempts exactly the MACs that had two live sessions at once (finding KF-pppsess-mac-orphan); the id search is fuel-bounded in the model, its termination behind the 65535 guard belongs to C09",
     "circuitkey: HashCircuitID is uninterpreted in hash_not_injective (any function into 64 bits); the FNV-1a model is only compared with the code",
-    "index: bijection and release-frame theorems assume OnePerKey and NoRekey (complements = findings D59, KF-index-rekey); not driven: IPv6 addresses, Authenticate, expiry sweeps (same by-value deletion code), pools/NAT bindings of state.Store",
+    "index: the bijection and release-frame theorems are per key: they assume OnePerKeyAt c s v and NoRekeyAt c s v for THAT key only, from any reachable state in which the key agrees (complements = findings D59, KF-index-rekey); other keys are unrestricted",
+    "index: index_sound_memstore assumes LoadsInj (every UnmarshalJSON input has at most one allocation per address; complement = D59_witness_memstore_load)",
+    "index: not driven: IPv6 addresses, Authenticate, the expiry sweeps (same by-value deletion code), pools of state.Store; the stress workloads are clean by construction (every goroutine owns its keys), their audit is judged with clause none",
     "NTE ids, subscriber ids and MACs are injectively mapped to naturals by the harness",
 ]
 
 
+def race_pass(ctx):
+    """concurrency: the harness is built a second time with `go build -race`; with C20_STRESS=1 every component
+    generates only its stress sequences (N goroutines on one shared object, then a full audit of both directions).
+    A report of the race detector, a crash, or ANY verdict of the usual monitors on the audit is a violation
+    (no finding may excuse these workloads, which are clean by construction)."""
+    out = os.path.join(ctx.scratch, "hx-c20race")
+    with V.Lock("gomod"):
+        rc, log = V.sh(["go", "build", "-race", "-tags", "verif", "-o", out, "./cmd/c20"],
+                       cwd=ctx.harness_dir(), env=V.env_go())
+    if rc != 0:
+        ctx.broken.append(("harness", "go build -race ./cmd/c20 failed: %s" % log[-1200:]))
+        return
+    total = {"seqs": 0, "lines": 0, "races": 0, "verdicts": 0}
+    for c in COMPS:
+        env = dict(os.environ)
+        env.update(c.exec_env)
+        env["C20_STRESS"] = "1"
+        tp = os.path.join(ctx.scratch, "%s-stress.trace" % c.name)
+        with open(tp, "w") as fout:
+            p = subprocess.run([out, "gen", "-seed", str(ctx.seed), "-tier", ctx.tier], stdout=fout,
+                               stderr=subprocess.PIPE, env=env, text=True, timeout=7200)
+        races = p.stderr.count("WARNING: DATA RACE")
+        total["races"] += races
+        if races or p.returncode != 0:
+            rp = V.write_replay(ctx, "%s-race" % c.name, {
+                "property": PROP, "kind": "data-race-or-crash-under-race-detector", "component": c.name,
+                "exit_code": p.returncode, "races": races, "stderr": p.stderr[:6000],
+                "ops": [l.split(" => ")[0] for l in open(tp).read().splitlines() if l.strip()][:40],
+                "replay_cmd": "cd /verif/harness && go build -race -tags verif -o /var/tmp/hx ./cmd/c20 && "
+                              "C20_COMP=%s C20_STRESS=1 /var/tmp/hx gen -seed %d -tier %s" % (c.name, ctx.seed, ctx.tier)})
+            ctx.violations.append((rp, ""))
+        lines, rc, err = ctx.drv(c.drv, tp, c.drv_bin)
+        if rc != 0:
+            ctx.broken.append(("driver", "bngdrv %s (stress) exited %d: %s" % (c.drv, rc, err[-300:])))
+        bad = []
+        cst = ctx.corr["components"].setdefault(c.name + "-stress", {"seqs": 0, "lines": 0, "diffs": 0, "viols": 0})
+        for line in lines:
+            if line.startswith("STATS"):
+                kv = dict(x.split("=") for x in line.split()[1:])
+                for k in ("seqs", "lines"):
+                    ctx.corr[k] += int(kv[k])
+                    cst[k] += int(kv[k])
+                    total[k] += int(kv[k])
+            elif line.startswith("VIOL") or line.startswith("DIFF"):
+                bad.append(line)
+                cst["viols" if line.startswith("VIOL") else "diffs"] += 1
+        if int(cst["seqs"]) == 0:
+            ctx.broken.append(("harness", "%s produced no stress sequence" % c.name))
+        if bad:
+            total["verdicts"] += len(bad)
+            seqs = V.read_seqs(tp)
+            m = re.match(r"(?:VIOL|DIFF) seq=(\d+)", bad[0])
+            sq = int(m.group(1)) if m else 0
+            rp = V.write_replay(ctx, "%s-stress" % c.name, {
+                "property": PROP, "kind": "monitor-violation-on-implementation-under-concurrency", "component": c.name,
+                "driver_output": bad[:20], "trace": seqs[sq] if sq < len(seqs) else [],
+                "ops": V.ops_of(seqs[sq]) if sq < len(seqs) else []})
+            ctx.violations.append((rp, ""))
+        V.summarize_trace(ctx, c, tp)
+    ctx.notes.append("race stress (go build -race, C20_STRESS=1): %(seqs)d sequences / %(lines)d ops, "
+                     "%(races)d race reports, %(verdicts)d monitor verdicts" % total)
+
+
 def run(tier, seed):
-    return V.standard_check(PROP, SPEC, COMPS, LEVEL, ASSUME, tier, seed)
+    return V.standard_check(PROP, SPEC, COMPS, LEVEL, ASSUME, tier, seed, post=race_pass)
 
 
 def replay(path):
